@@ -359,6 +359,61 @@ func runClusterAcks(c *Ctx, r *Rng) {
 		cl.Close()
 		c.End()
 	}
+	// (a2) "the right caller": two replicas of one partition propose at the same time, each for its own
+	// caller. Every replica applies every entry and signals the notification id carried by the entry;
+	// a caller must only ever be woken by its own entry.
+	{
+		c.Begin("acks two-replicas-concurrent-callers")
+		cl := newSimCluster(2)
+		dsId, err := cl.createDataset(1, 2, 1, 2, pb.Space_Euclidean)
+		if err != nil {
+			c.Note("create failed: %v", err)
+		} else {
+			rounds := c.Pick(25, 200)
+			wrong := 0
+			var firstWrong string
+			for i := 0; i < rounds; i++ {
+				fresh, absent := 1000+i, 5000+i
+				var e1, e2 error
+				var wg sync.WaitGroup
+				wg.Add(2)
+				go func() {
+					defer wg.Done()
+					cctx, cancel := context.WithTimeout(ctx, 8*time.Second)
+					defer cancel()
+					if d := cl.dataset(1, dsId); d != nil {
+						e1 = d.Insert(cctx, rid(fresh), amath.Vector{float32(i), 1}, nil)
+					}
+				}()
+				go func() {
+					defer wg.Done()
+					cctx, cancel := context.WithTimeout(ctx, 8*time.Second)
+					defer cancel()
+					if d := cl.dataset(2, dsId); d != nil {
+						e2 = d.Remove(cctx, rid(absent))
+					}
+				}()
+				wg.Wait()
+				_, gerr := cl.dataset(1, dsId).VerifPartitionAt(0).Index().Get(rid(fresh))
+				present := gerr == nil
+				g1, g2 := classify(e1), classify(e2)
+				// the insert of a fresh id succeeds and the item is there; the removal of an absent id reports not-found
+				if !(g1 == "ok" && present) || g2 != "notfound" {
+					wrong++
+					if firstWrong == "" {
+						firstWrong = fmt.Sprintf("round %d: Insert(fresh id) through node 1 answered %q (item stored: %v), Remove(absent id) through node 2 answered %q", i, g1, present, g2)
+					}
+				}
+			}
+			c.OpLocal("%d rounds: Insert(fresh) via replica 1 || Remove(absent) via replica 2 -> %d rounds with a caller answered wrongly", rounds, wrong)
+			if wrong > 0 {
+				c.Violate("C11", "C11/answered-with-another-callers-outcome", "two replicas of one partition proposed concurrently, each for its own caller: "+firstWrong+" - a caller was woken with the outcome of the other replica's entry", c.History())
+			}
+			c.Nontrivial("two-replicas-concurrent")
+		}
+		cl.Close()
+		c.End()
+	}
 	// (b) unreachable owner: failing client, and no address at all
 	{
 		c.Begin("acks unreachable-owner")
